@@ -134,9 +134,12 @@ def make_atoms(V, n, momenta=False, extras=True, fixed=(), masses=None, cell=Tru
     pos = V.array(prefix, (n, 3))
     cls = shims.SymAtoms if sym else __import__("ase").Atoms
     formula = "".join(["Cu", "Ag", "Au", "Pt"][i % 4] for i in range(n))
-    a = cls(formula, positions=np.zeros((n, 3)) if sym else pos, cell=CELL if cell else None, pbc=bool(cell))
-    if sym:
-        a.arrays["positions"] = shims.objectify(np.array(pos, dtype=object)) if False else np.array(pos, dtype=object)
+    if n == 0:
+        a = cls(cell=CELL if cell else None, pbc=bool(cell))
+    else:
+        a = cls(formula, positions=np.zeros((n, 3)) if sym else pos, cell=CELL if cell else None, pbc=bool(cell))
+    if sym and n:
+        a.arrays["positions"] = np.array(pos, dtype=object)
     if masses is not None:
         a.set_masses(masses)
     if momenta:
